@@ -1197,6 +1197,73 @@ def r16(F, R):
     R.floor("C14-R16", 2)
 
 
+
+
+def _borrowed_from_field(b, l, field, depth=0):
+    """True if local l is a reference obtained from `&mut self.<field>` through a chain of method calls on the receiver
+    (`self.f.entry(k).or_insert(0)`): follows the receiver (first argument) of defining calls and plain moves only."""
+    if depth > 8:
+        return False
+    for d in b.defs().get(l, []):
+        if d[0] == "call":
+            args = d[3]["args"]
+            if args and args[0]["k"] in ("copy", "move") and _borrowed_from_field(b, args[0]["pl"]["l"], field, depth + 1):
+                return True
+        elif d[3]["k"] == "assign":
+            rv = d[3]["rv"]
+            pl = rv.get("pl") if rv["k"] in ("ref", "rawptr") else (rv["op"]["pl"] if rv["k"] == "use" and rv["op"]["k"] in ("copy", "move") else None)
+            if pl is None:
+                continue
+            if any(isinstance(e, dict) and e.get("n") == field for e in pl["p"]):
+                return True
+            if not b.is_arg(pl["l"]) and pl["l"] != l and _borrowed_from_field(b, pl["l"], field, depth + 1):
+                return True
+    return False
+
+def r19(F, R):
+    R.rule("C14-R19", "the extent of the warmup event arrays is counted where the events live: every value stored into `warmup_event_counts` (the Zarr chain storages "
+                      "trim the warmup event arrays to it in finalize) derives from `SampleBuffer::total_pushed()` called in the same function, and that call is not "
+                      "reachable from a `SampleBuffer::reset` (a reset forgets the count; a copy of the count kept elsewhere is right only on the paths that refresh it). "
+                      "A count that is too small drops recorded warmup events from the stored trace")
+    n = 0
+    for b in sorted(F.bodies.values(), key=lambda x: x.path):
+        if not b.path.startswith(("storage::zarr", "<storage::zarr")) or "::tests::" in b.path or not b.mir:
+            continue
+        resets = [bb for bb, t in b.calls() if t["callee"].get("name") == "reset" and "SampleBuffer" in strip_generics(t["callee"].get("path", ""))]
+        for bi, blk in enumerate(b.blocks):
+            if blk["cleanup"]:
+                continue
+            for st in blk["stmts"]:
+                if st["k"] != "assign" or not any(e == "deref" or (isinstance(e, dict) and e.get("k") == "deref") or e == "*" for e in st["pl"]["p"]):
+                    continue
+                if not _borrowed_from_field(b, st["pl"]["l"], "warmup_event_counts"):
+                    continue
+                ops = []
+                rv = st["rv"]
+                for k_ in ("op", "l", "r"):
+                    if isinstance(rv.get(k_), dict):
+                        ops.append(rv[k_])
+                ops += [o for o in (rv.get("ops") or []) if isinstance(o, dict)]
+                sl = b.slice(ops, control=False)
+                n += 1
+                fn_ = b.path
+                key = "%s:count#%d" % (fn_.split("::{closure")[0], n)
+                site = "%s @%s" % (b.path, loc(st["span"]))
+                tp = [(bb, t) for bb, t in b.calls() if t["callee"].get("name") == "total_pushed" and t["dest"]["l"] in sl["locals"]]
+                if not tp:
+                    R.bad("C14-R19", key, site, "the value stored into warmup_event_counts does not come from SampleBuffer::total_pushed() in this function (reads: %s)"
+                          % ", ".join(sorted(sl["fields"] - {"warmup_event_counts"}))[:200])
+                    continue
+                late = [bb for bb, _t in tp if any(bb in b.reach_from(r) for r in resets)]
+                if late:
+                    R.bad("C14-R19", key, site, "total_pushed() is read after SampleBuffer::reset on some path: the count of the warmup phase is gone by then")
+                else:
+                    R.ok("C14-R19", key, site, "count = max(count, total_pushed()), read before any reset")
+    R.info("C14-R19", "stores into warmup_event_counts: %d" % n)
+    if n < 2:
+        R.missing("C14-R19", "stores into warmup_event_counts in storage::zarr (sync and async record_sample; found %d)" % n)
+
+
 def r18(F, R):
     R.rule("C14-R18", "an empty dimension is stored by every Zarr code path: the chunk shape given to `ArrayBuilder::new` (coordinates, draws, statistics; sync and async) "
                       "is non-zero by construction - each component goes through `.max(1)` (directly, or in the closure of a `.map(..)` over the components) or is a "
@@ -1257,6 +1324,7 @@ def run(F, R, config="all"):
     r15(F, R)
     r16(F, R)
     r18(F, R)
+    r19(F, R)
     # a write whose failure is dropped leaves fill values where recorded draws should be, without an error: no unread Result in the backends
     from . import c13
     def _storage_only(sub):
